@@ -26,7 +26,7 @@ REAL = ["Matryoshka._calc_target_power / get_status", "_Report.adjust_to_bounds"
 STUB = ["bounds source", "power distributor", "client actors"]
 RULE = ("one run = a history of proposals (distinct priorities, 1-6 actors, replacements, expiry) and bounds changes; at "
         "every step whose live set is conflict-free (running intersection of system bounds and higher-priority bounds minus "
-        "the exclusion zone never empty) the three clauses are evaluated, probing x on every interval end point +-1 W; "
+        "the exclusion zone never empty) the three clauses are evaluated (the target both as the bounds tracker sees it - recalculation without proposal, then get_target_power - and with must_return_power), probing x on every interval end point +-1 W; "
         "non-trivial = conflict-free step with >= 2 live proposals of which a higher-priority one sets bounds; distinct = "
         "abstract digest of the operation sequence")
 QUICK_RUNS = 6000
